@@ -39,8 +39,10 @@ using namespace verif;
 using verif::wmm::E;
 
 // storage of a retired node is unmapped: forget its payload shadow (addresses get reused)
+static long g_munmaps = 0; // one per retired node (its storage); lets the harness count how many nodes a read call retired
 extern "C" int munmap(void* addr, size_t len)
 {
+  ++g_munmaps;
   wmm::shadow().clear_range(reinterpret_cast<uintptr_t>(addr), len);
   return static_cast<int>(syscall(SYS_munmap, addr, len));
 }
@@ -580,6 +582,7 @@ void run_unbounded(Choices& c, Report& r, bool quiescence)
   };
 
   unsigned empty_calls = 0;
+  long multi_hop_switches = 0;
   auto consumer = [&]()
   {
     unsigned pending = 0;
@@ -609,30 +612,52 @@ void run_unbounded(Choices& c, Report& r, bool quiescence)
           return;
         }
       }
+      // once everything the finished producer stored is visible, a read must not report "empty" while a committed
+      // record is unread (e.g. because an empty buffer sits between the consumer's buffer and the record's)
+      bool const all_visible_read = m.producer_done && !m.fifo.empty() && c.pick(4) == 3;
+      bool const was_fn = E().force_newest;
+      if (all_visible_read) E().force_newest = true;
+      long const munmaps_before = g_munmaps;
       Q::ReadResult rr = q.prepare_read();
+      E().force_newest = was_fn;
+      if (all_visible_read && !rr.read_pos)
+      {
+        E().fail("prepare_read() reports an empty queue although committed record seq " + std::to_string(m.fifo.front().seq) +
+                 " is unread and every store of the finished producer is visible");
+        return;
+      }
       if (rr.allocation)
       {
-        // the consumer switched to the next node: the old one must be completely consumed
-        for (auto const& x : m.fifo)
+        // the consumer switched buffers: one retired node per hop (a chain of re-allocations with nothing written in between
+        // may be followed in one call); every node left behind must be completely consumed
+        long const hops = g_munmaps - munmaps_before;
+        if (hops < 1) { E().fail("ReadResult reports a switch but no node was retired"); return; }
+        size_t const from = cnode;
+        for (long h = 0; h < hops; ++h)
         {
-          if (x.node == cnode)
+          for (auto const& x : m.fifo)
           {
-            E().fail("consumer switched to the next buffer while committed record seq " + std::to_string(x.seq) +
-                     " of the old buffer was still unread");
-            return;
+            if (x.node == cnode)
+            {
+              E().fail("consumer switched to the next buffer while committed record seq " + std::to_string(x.seq) +
+                       " of the old buffer was still unread");
+              return;
+            }
           }
+          if (cnode + 1 >= nodes.size()) { E().fail("consumer switched to a buffer the producer never created"); return; }
+          ++cnode;
+          ++switches_seen;
         }
-        if (cnode + 1 >= nodes.size()) { E().fail("consumer switched to a buffer the producer never created"); return; }
-        if (rr.previous_capacity != nodes[cnode].cap || rr.new_capacity != nodes[cnode + 1].cap)
+        if (hops > 1) ++multi_hop_switches;
+        if (rr.previous_capacity != nodes[from].cap || rr.new_capacity != nodes[cnode].cap)
         {
           E().fail("ReadResult capacities (" + std::to_string(rr.previous_capacity) + " -> " + std::to_string(rr.new_capacity) +
-                   ") differ from the model (" + std::to_string(nodes[cnode].cap) + " -> " + std::to_string(nodes[cnode + 1].cap) + ")");
+                   ") differ from the model (" + std::to_string(nodes[from].cap) + " -> " + std::to_string(nodes[cnode].cap) + ")");
           return;
         }
-        ++cnode;
-        ++switches_seen;
         pending = 0; // the old node's reads were committed by the switch
       }
+      else if (g_munmaps != munmaps_before) { E().fail("a node was retired by a read that does not report a switch"); return; }
       std::byte* p = rr.read_pos;
       if (!p)
       {
@@ -681,7 +706,7 @@ void run_unbounded(Choices& c, Report& r, bool quiescence)
   E().run();
   r.line("ops: " + opslog);
   r.line("grows=" + std::to_string(grows) + " shrinks=" + std::to_string(shrinks) + " switches_seen=" + std::to_string(switches_seen) +
-         " refused=" + std::to_string(refused) + " threw=" + std::to_string(threw) + " empty_calls=" + std::to_string(empty_calls) + " preemptions=" +
+         " refused=" + std::to_string(refused) + " threw=" + std::to_string(threw) + " empty_calls=" + std::to_string(empty_calls) + " multi_hop_switches=" + std::to_string(multi_hop_switches) + " preemptions=" +
          std::to_string(E().preemptions) + " stale_loads=" + std::to_string(E().stale_loads));
   if (!E().error.empty()) { r.fail(E().error); return; }
   if (!m.fifo.empty()) { r.fail("records left unconsumed at the end of the case"); return; }
